@@ -3,7 +3,7 @@ use crate::json::{arr, b, obj, opt_s, s};
 use rustc_hir::def::DefKind;
 use rustc_hir::def_id::{DefId, LocalDefId};
 use rustc_middle::mir::*;
-use rustc_middle::ty::print::{with_crate_prefix, with_no_trimmed_paths};
+use rustc_middle::ty::print::{with_crate_prefix, with_no_trimmed_paths, with_no_visible_paths};
 use rustc_middle::ty::{self, Instance, Ty, TyCtxt, TypingEnv};
 use rustc_span::Span;
 
@@ -37,11 +37,11 @@ pub fn fix_crate(p: String) -> String {
 }
 
 pub fn path_of(tcx: TyCtxt<'_>, did: DefId) -> String {
-    fix_crate(with_crate_prefix!(with_no_trimmed_paths!(tcx.def_path_str(did))))
+    fix_crate(with_no_visible_paths!(with_crate_prefix!(with_no_trimmed_paths!(tcx.def_path_str(did)))))
 }
 
 pub fn ty_str<'tcx>(ty: Ty<'tcx>) -> String {
-    fix_crate(with_crate_prefix!(with_no_trimmed_paths!(ty.to_string())))
+    fix_crate(with_no_visible_paths!(with_crate_prefix!(with_no_trimmed_paths!(ty.to_string()))))
 }
 
 pub struct Loc {
@@ -160,6 +160,11 @@ impl<'tcx> Cx<'tcx> {
                 }
             }
         }
+        if val == "null" {
+            // unevaluated / parameter constants keep their printed form (e.g. a const generic `BF`)
+            let repr = fix_crate(with_no_visible_paths!(with_crate_prefix!(with_no_trimmed_paths!(format!("{}", c.const_)))));
+            return format!("[\"k\",{},null,{}]", s(&tys), s(&repr));
+        }
         format!("[\"k\",{},{}]", s(&tys), val)
     }
 
@@ -258,7 +263,7 @@ impl<'tcx> Cx<'tcx> {
                     _ => "shim",
                 };
                 let p = path_of(tcx, rd);
-                let a = fix_crate(with_crate_prefix!(with_no_trimmed_paths!(format!("{:?}", inst.args))));
+                let a = fix_crate(with_no_visible_paths!(with_crate_prefix!(with_no_trimmed_paths!(format!("{:?}", inst.args)))));
                 let t = if is_trait_item { Some(orig) } else { None };
                 // a trait item that resolved to itself (default method or still generic)
                 let kind = if is_trait_item && rd == did && !tcx.defaultness(did).has_value() {
@@ -269,7 +274,7 @@ impl<'tcx> Cx<'tcx> {
                 (p, a, kind, t)
             }
             _ => {
-                let a = fix_crate(with_crate_prefix!(with_no_trimmed_paths!(format!("{:?}", nargs))));
+                let a = fix_crate(with_no_visible_paths!(with_crate_prefix!(with_no_trimmed_paths!(format!("{:?}", nargs)))));
                 (orig.clone(), a, if is_trait_item { "trait_unresolved" } else { "unresolved" }, if is_trait_item { Some(orig) } else { None })
             }
         }
